@@ -18,9 +18,10 @@
    Modelled: block quotes, bullet and ordered lists (start number, delimiter, tight/loose,
    "may interrupt a paragraph" restrictions), paragraphs with laziness, ATX and setext
    headings, fenced and indented code, thematic breaks, blank lines, tabs.
-   HTML blocks: start conditions 2, 6 (the full list of tag names), 7 (for the tag names of the alphabets).
+   HTML blocks: start conditions 1 (script, style, pre), 2, 3, 4 (upper-case name: the form on which 0.29 and 0.31 agree), 5,
+   6 (the full list of tag names), 7 (for the tag names of the alphabets).
    Link reference definitions at the start of paragraphs (destination without angle brackets, quoted titles).
-   Not modelled (outside every alphabet used with this module): HTML block kinds 1, 3-5, <..> destinations and
+   Not modelled (outside every alphabet used with this module): <..> destinations and
    parenthesised titles of definitions; inline structure is in MdInline. *)
 EXTENDS Naturals, Sequences, TLC
 
@@ -195,8 +196,8 @@ Continue(nd, hasOpenKid, l, c) ==
             THEN IF IsClosingFence(nd, l, f) THEN [res |-> 2, cur |-> c] ELSE ok(SkipFenceOff(l, c, nd.d.foff))
             ELSE IF f.indent >= 4 THEN ok(AdvCols(l, c, 4)) ELSE IF f.blank THEN ok(AdvNNS(f)) ELSE no
        [] nd.t = "html" ->
-            \* kinds 6 and 7 end at a blank line (which is not part of the block); kind 2 (comment) takes every line until one
-            \* holds "-->" (closed after that line has been added, see Step)
+            \* kinds 6 and 7 end at a blank line (which is not part of the block); kinds 1-5 take every line until one
+            \* satisfies the end condition (closed after that line has been added, see Step)
             IF nd.d.hkind \in {6, 7} /\ f.blank THEN no ELSE ok(c)
        [] OTHER -> no          \* heading, hr never continue
 
@@ -249,14 +250,31 @@ BlockTags == {<<"a", "d", "d", "r", "e", "s", "s">>, <<"a", "r", "t", "i", "c", 
               <<"p", "a", "r", "a", "m">>, <<"s", "e", "c", "t", "i", "o", "n">>, <<"s", "u", "m", "m", "a", "r", "y">>, <<"t", "a", "b", "l", "e">>, <<"t", "b", "o", "d", "y">>, <<"t", "d">>,
               <<"t", "f", "o", "o", "t">>, <<"t", "h">>, <<"t", "h", "e", "a", "d">>, <<"t", "i", "t", "l", "e">>, <<"t", "r">>, <<"t", "r", "a", "c", "k">>,
               <<"u", "l">>}
-OtherTags == {<<"a">>, <<"b">>, <<"s", "p", "a", "n">>}
+OtherTags == {<<"a">>, <<"b">>, <<"s", "p", "a", "n">>, <<"s", "c", "r", "i", "p", "t">>, <<"s", "t", "y", "l", "e">>, <<"S", "T", "Y", "L", "E">>}
+(* start condition 1: `<script`, `<pre`, `<style` (any case; the alphabets use all-lower and all-upper spellings) followed by white space,
+   `>` or the end of the line; the block ends with the line that holds one of the closing tags.  `textarea` (added by 0.30) is left out. *)
+Kind1Tags == {<<"s", "c", "r", "i", "p", "t">>, <<"s", "t", "y", "l", "e">>, <<"p", "r", "e">>, <<"S", "T", "Y", "L", "E">>}
+Kind1Closers == {<<"<", "/", "s", "c", "r", "i", "p", "t", ">">>, <<"<", "/", "s", "t", "y", "l", "e", ">">>, <<"<", "/", "p", "r", "e", ">">>, <<"<", "/", "S", "T", "Y", "L", "E", ">">>}
+UpperLetters == {"A", "B", "C", "D", "X", "Y"}
+(* the line, from offset off on, satisfies the end condition of an HTML block of kind k (kinds 6 and 7 end before a blank line instead) *)
+HtmlEnds(k, l, off) ==
+  CASE k = 1 -> \E w \in Kind1Closers : HasSeqFrom(l, off, w)
+    [] k = 2 -> HasSeqFrom(l, off, <<"-", "-", ">">>)
+    [] k = 3 -> HasSeqFrom(l, off, <<"?", ">">>)
+    [] k = 4 -> HasSeqFrom(l, off, <<">">>)
+    [] k = 5 -> HasSeqFrom(l, off, <<"]", "]", ">">>)
+    [] OTHER -> FALSE
 TagAt(l, i, tags) == \E w \in tags : StartsWithAt(l, i, w)
 TagLen(l, i, tags) == Len(CHOOSE w \in tags : StartsWithAt(l, i, w) /\ \A v \in tags : StartsWithAt(l, i, v) => Len(v) <= Len(w))
 HtmlKind(l, f) ==        \* 0: not an HTML block start
   LET i == f.nns
       j == IF StartsWithAt(l, i, <<"<", "/">>) THEN i + 2 ELSE i + 1 IN
   IF f.indented \/ Peek(l, i) # "<" THEN 0
+  ELSE IF TagAt(l, i + 1, Kind1Tags) /\ Peek(l, i + 1 + TagLen(l, i + 1, Kind1Tags)) \in {"", " ", "\t", ">"} THEN 1
   ELSE IF StartsWithAt(l, i, <<"<", "!", "-", "-">>) THEN 2
+  ELSE IF StartsWithAt(l, i, <<"<", "?">>) THEN 3
+  ELSE IF StartsWithAt(l, i, <<"<", "!">>) /\ Peek(l, i + 2) \in UpperLetters THEN 4
+  ELSE IF StartsWithAt(l, i, <<"<", "!", "[", "C", "D", "A", "T", "A", "[">>) THEN 5
   ELSE IF TagAt(l, j, BlockTags) /\ Peek(l, j + TagLen(l, j, BlockTags)) \in {"", " ", "\t", ">", "/"} THEN 6
   ELSE IF TagAt(l, j, OtherTags) /\ Peek(l, j + TagLen(l, j, OtherTags)) = ">" /\ OnlyWs(l, j + TagLen(l, j, OtherTags) + 1) THEN 7
   ELSE 0
@@ -379,7 +397,7 @@ Step(st0, l, lno) ==
      THEN AddLine(stF, l, P.cur)                       \* lazy continuation
      ELSE LET st2 == CloseTo(stF, P.m)
               c == st2[P.m]
-          IN IF c.t = "html" /\ c.d.hkind = 2 /\ HasSeqFrom(l, P.cur.off, <<"-", "-", ">">>) THEN PopClose(AddLine(st2, l, P.cur))
+          IN IF c.t = "html" /\ HtmlEnds(c.d.hkind, l, P.cur.off) THEN PopClose(AddLine(st2, l, P.cur))
              ELSE IF AcceptsLines(c.t) THEN AddLine(st2, l, P.cur)
              ELSE IF P.cur.off < Len(l) /\ ~f.blank /\ ~P.noline
                   THEN AddLine(AddChild(st2, NewNode("para", <<>>, lno, f.nns + 1)), l, AdvNNS(f))
